@@ -81,8 +81,9 @@ class _OpxRange(ExcelWrapper.RangeData):
 
             # if this range corresponds to the top left of a CSE Array formula
             if (args[0] == args[1] == '1') and all(
-                    c.value and c.value.startswith(front)
-                    for c in flatten(cells)):
+                    isinstance(c.value, str) and c.value.startswith(front)
+                    for c in flatten(cells)) and (
+                    len(cells) <= int(args[2]) and len(cells[0]) <= int(args[3])):
                 # apply formula to the range
                 formula = '={%s}' % front[len(ARRAY_FORMULA_NAME) + 1:]
         else:
@@ -376,11 +377,16 @@ class ExcelOpxWrapperNoData(ExcelOpxWrapper):
 
     class OpxRange(_OpxRange):
         def __new__(cls, range_data):
-            values = tuple(
-                tuple(ExcelOpxWrapperNoData.excel_value(*cell)
-                      for cell in zip(row_f, row_v))
-                for row_f, row_v in zip(range_data.formula, range_data.values)
-            )
+            if isinstance(range_data.formula, tuple):
+                values = tuple(
+                    tuple(ExcelOpxWrapperNoData.excel_value(*cell)
+                          for cell in zip(row_f, row_v))
+                    for row_f, row_v in zip(range_data.formula, range_data.values)
+                )
+            else:
+                # a CSE Array Formula, or a range which partly covers one
+                values = tuple(tuple(None for _ in row)
+                               for row in range_data.values)
             return ExcelWrapper.RangeData.__new__(
                 cls, range_data.address, range_data.formula, values)
 
